@@ -20,7 +20,9 @@ S1Bases == <<S1Base1, S1Base2, S1Base3>>
 \* COSE_Signature / COSE_Countersignature (3-arrays)
 SgBase1 == Cs1
 SgBase2 == Arr(<<BstrW(Map(<<A_ES256, <<UInt(5), Bstr(<<9>>)>>>>)), Map(<<<<UInt(4), Bstr(<<49>>)>>, <<UInt(7), Cs2>>>>), SigBytes>>)
-SgBases == <<SgBase1, SgBase2>>
+Cs3 == Arr(<<BstrW(Map(<<A_ES256>>)), Map(<<<<UInt(11), Arr(<<Cs2, Cs1>>)>>, <<UInt(9), Bstr(<<1, 2>>)>>>>), Bstr(<<7, 7>>)>>)       \* countersignatures inside a countersignature
+SgBase3 == Arr(<<BstrW(Map(<<A_EdDSA>>)), Map(<<<<UInt(7), Cs3>>>>), SigBytes>>)
+SgBases == <<SgBase1, SgBase2, SgBase3>>
 
 \* bodies of COSE_Sign (4-arrays)
 SnBase1 == Arr(<<BstrW(Map(<<>>)), Map(<<>>), Bstr(<<1>>), Arr(<<Cs1>>)>>)
